@@ -128,8 +128,11 @@ class HostRig:
             self.raised.append(type(e).__name__)
             self.out.append({"o": "raised", "exc": type(e).__name__})
 
-    async def recv(self, frames: list[dict], late: bool = False, raw: bytes | None = None):
+    async def recv(self, frames: list[dict], late: bool = False, raw: bytes | None = None, slow: bool = False):
+        """slow: the read happens 1 ms before the pending ACK timer would fire (an answer that is late but in time)"""
         data = raw if raw is not None else b"".join(ashref.wire(self._bytes_frame(f)) for f in frames)
+        if slow and self.next_timer() is not None:
+            self.loop._vnow = max(self.loop._vnow, self.next_timer() - 0.001)
         if late:
             when = self.next_timer()
             assert when is not None
